@@ -151,8 +151,13 @@ class Transformer(Visitor):
         # Then recurse over the new nodes
         visited = tuple(self.visit(i, **kwargs) for i in o)
 
-        # Strip empty sublists/subtuples or None entries
-        return tuple(i for i in visited if i is not None and as_tuple(i))
+        # Strip None entries and empty results of node visits; the result for an
+        # element that is itself a tuple (e.g. a case body in `MultiConditional.bodies`)
+        # keeps its position even if it became empty
+        return tuple(
+            v for i, v in zip(o, visited)
+            if v is not None and (as_tuple(v) or isinstance(i, (tuple, list)))
+        )
 
     visit_list = visit_tuple
 
@@ -256,11 +261,19 @@ class NestedTransformer(Transformer):
         # Recurse to children first !
         visited = tuple(self.visit(i, **kwargs) for i in o)
 
+        # Mark empty results of node visits for removal; the result for an element that
+        # is itself a tuple (e.g. a case body in `MultiConditional.bodies`) keeps its
+        # position even if it became empty
+        visited = tuple(
+            v if isinstance(i, (tuple, list)) or as_tuple(v) else None
+            for i, v in zip(o, visited)
+        )
+
         # Inject any matching sub-set of nodes into current tuple
         visited = self._inject_tuple_mapping(visited)
 
-        # Strip empty sublists/subtuples or None entries
-        return tuple(i for i in visited if i is not None and as_tuple(i))
+        # Strip None entries
+        return tuple(i for i in visited if i is not None)
 
     visit_list = visit_tuple
 
